@@ -1435,6 +1435,7 @@ def witnesses(rep: Report):
 
 def run(rep: Report):
     rng = Rng(rep.seed * 1000003 + 16)
+    from .. import opscheck; opscheck.check_ops(rep, ["multi", "agg", "window"])
     witnesses(rep)
     deadline = time.time() + budget(rep.tier, 40, 480)
     n, stats, bad = drive(rep, rng, rep.tier, deadline, True, 7200 if rep.tier == "quick" else 120000)
